@@ -38,7 +38,13 @@ def guards_of(node, stop=None):
     child = node
     parent = getattr(node, "_parent", None)
     while parent is not None and parent is not stop:
-        if isinstance(parent, FuncTypes + (ast.Lambda,)):
+        if isinstance(parent, ast.Lambda):
+            break
+        if isinstance(parent, FuncTypes):
+            if _in_list(child, parent.body):
+                idx = _index_of(child, parent.body)
+                for prev in parent.body[:idx]:
+                    facts += _leaving_facts(prev)
             break
         if isinstance(parent, (ast.If, ast.While)):
             if _in_list(child, parent.body):
